@@ -4,7 +4,7 @@ from __future__ import annotations
 
 import ast
 
-from sa.core import AnalysisError, Report, loc, norm_src
+from sa.core import inlined_src, AnalysisError, Report, loc, norm_src
 from sa.paths import enumerate_paths, calls_in, call_name, dotted
 from sa.defuse import origins
 
@@ -88,6 +88,24 @@ def run(repo, tier):
     if len(val_elts) != 1:
         raise AnalysisError("constant key: value component not recognised")
     ve = val_elts[0]
+    # a helper function that builds the value part of the key is followed into its body
+    if isinstance(ve, ast.Call) and isinstance(ve.func, ast.Name) and len(ve.args) == 1 and dotted(ve.args[0]) == VAL and repo.has(rel, ve.func.id):
+        helper = repo.func(rel, ve.func.id)
+        hp = [a.arg for a in helper.args.args]
+        body = [st for st in helper.body if not (isinstance(st, ast.Expr) and isinstance(st.value, ast.Constant))]
+        expr_ = None
+        if len(hp) == 1 and len(body) == 1 and isinstance(body[0], ast.Return):
+            expr_ = body[0].value
+        elif len(hp) == 1 and len(body) == 2 and isinstance(body[0], ast.If) and not body[0].orelse and len(body[0].body) == 1 \
+                and isinstance(body[0].body[0], ast.Return) and isinstance(body[1], ast.Return):
+            expr_ = ast.IfExp(test=body[0].test, body=body[0].body[0].value, orelse=body[1].value)
+        if expr_ is None:
+            raise AnalysisError(f"constant key: helper {ve.func.id} is not a single-expression function")
+        from sa.core import fresh_copy, _Renamer
+        ve = _Renamer({hp[0]: VAL}).visit(fresh_copy(expr_))
+        ast.fix_missing_locations(ve)
+        for n_ in ast.walk(ve):
+            n_.lineno = getattr(helper, "lineno", 0)
     plain = ve.orelse if isinstance(ve, ast.IfExp) else ve
     if isinstance(ve, ast.IfExp):
         ok = dotted(ve.body) == f"{VAL}.key" and f"isinstance({VAL}, Expr)" in norm_src(ve.test)
@@ -272,7 +290,7 @@ def run(repo, tier):
             if ok:
                 st = stores[0].node
                 sub = [n for n in ast.walk(st) if isinstance(n, ast.Subscript) and isinstance(n.ctx, ast.Store)][0]
-                ok = dotted(sub.slice) == "expr.key"
+                ok = inlined_src(sub.slice, reg) == "expr.key"
                 detail = f"table is written under `{norm_src(sub.slice)}` but looked up under expr.key"
             r.ob("R7.3", "context.py::Context._register_expression miss path", ok, detail, loc("context.py", reg))
             r.ob("R7.3", "context.py::Context._register_expression miss path returns the new object", retv == PREV, f"returns `{retv}`", loc("context.py", reg))
@@ -281,7 +299,7 @@ def run(repo, tier):
             r.ob("R7.3", "context.py::Context._register_expression hit path", ok,
                  f"hit path writes the table/ids ({len(stores)} stores, {len(setid)} id assignments, {len(incs)} increments) or returns `{retv}` instead of the registered object", loc("context.py", reg))
     lookups = [c for c in calls_in(reg) if isinstance(c.func, ast.Attribute) and c.func.attr == "get" and (dotted(c.func.value) or "").endswith("._expressions")]
-    ok = len(lookups) == 1 and dotted(lookups[0].args[0]) == "expr.key"
+    ok = len(lookups) == 1 and inlined_src(lookups[0].args[0], reg) == "expr.key"
     r.ob("R7.3", "context.py::Context._register_expression lookup key", ok, "lookup is not `_expressions.get(expr.key)`", loc("context.py", reg))
     # single writers package-wide
     for rel2 in repo.py_files():
